@@ -84,6 +84,10 @@ func (fr *frame) index(idx value, n int) int {
 	}
 	i := fr.i
 	w := s.t.width
+	if w < 64 && uint64(n) >= uint64(1)<<uint(w) {
+		// every value of the index type is in range (e.g. a byte into a [256] table)
+		return int(fr.concInt(idx, "index"))
+	}
 	inr := i.tt.App("bvult", 0, s.t, i.tt.Const(w, uint64(n)))
 	if !i.decideBool(inr, "index") {
 		fr.tpanic(fmt.Sprintf("index out of range [symbolic] with length %d", n))
@@ -557,6 +561,22 @@ func callBuiltin(caller *frame, callpos token.Pos, fn *ssa.Builtin, args []value
 		m := args[0].(*omap)
 		kt := fn.Type().(*types.Signature).Params().At(0).Type().Underlying().(*types.Map).Key()
 		i.mapDelete(m, kt, args[1])
+		return nil
+
+	case "clear":
+		switch x := args[0].(type) {
+		case *omap:
+			if x != nil {
+				x.keys, x.vals = nil, nil
+			}
+		case []value:
+			pt := fn.Type().(*types.Signature).Params().At(0).Type().Underlying()
+			if st, ok := pt.(*types.Slice); ok {
+				for k := range x {
+					x[k] = zero(st.Elem())
+				}
+			}
+		}
 		return nil
 
 	case "print", "println":
